@@ -116,7 +116,7 @@ def read_reply(block):
             if cur is None:
                 anomalies.append('orphan-continuation')
                 continue
-            if any(c in ln for c in (b'\r', b'\n', b'\x0b', b'\x0c', b'\x1c', b'\x1d', b'\x1e', b'\x1f')) or any(c >= 0x80 for c in ln):
+            if any(c in ln for c in (b'\r', b'\n', b'\x0b', b'\x0c', b'\x1c', b'\x1d', b'\x1e', b'\x1f')):
                 anomalies.append('odd-byte')
             headers[cur][-1] = headers[cur][-1] + b' ' + ln.strip(b' \t')
             headers[cur][-1] = headers[cur][-1].strip(b' \t')
@@ -125,11 +125,18 @@ def read_reply(block):
             anomalies.append('empty-line-inside')
             continue
         name, colon, value = ln.partition(b':')
+        if colon and any(c >= 0x80 for c in name):
+            # a field name with non-ASCII octets is no field name at all (RFC 7230 token): whatever it looks like after decoding,
+            # it is not the header it resembles - the line contributes nothing
+            cur = None
+            continue
         if not colon or not TOKEN.fullmatch(name):
             anomalies.append('bad-field-line')
             cur = None if not colon else cur
             continue
-        if any(c < 0x20 and c != 9 for c in value) or any(c >= 0x7f for c in value):
+        # octets >= 0x80 in a VALUE are legal (obs-text) and are just bytes: they can never be part of the token `websocket` or of a
+        # base64 digest, and they are not optional whitespace; control characters are an anomaly (readers differ in what they strip)
+        if any(c < 0x20 and c != 9 for c in value) or any(c == 0x7f for c in value):
             anomalies.append('odd-byte')
         cur = name.lower()
         headers.setdefault(cur, []).append(value.strip(b' \t'))
